@@ -80,6 +80,16 @@ def deviations(b):
                         if isinstance(term[2], int):
                             devs.append(("%s-coefficient-%d-%d" % (where, i, t), v, "reject"))
                 v = side(); target(v)[i]["lc"] = o["lc"] + [["1", 0, 1]]; devs.append(("%s-constant-%d" % (where, i), v, "reject"))
+                # ... as the first term, and each constant term the constraint already spells changed in place
+                v = side(); target(v)[i]["lc"] = [["1", 0, 1]] + o["lc"]; devs.append(("%s-constant-first-%d" % (where, i), v, "reject"))
+                for t, term in enumerate(o["lc"]):
+                    if term[0] == "1" and isinstance(term[2], int):
+                        v = side(); target(v)[i]["lc"][t][2] = term[2] + 1; devs.append(("%s-constant-changed-%d-%d" % (where, i, t), v, "reject"))
+                if o.get("fix") is not None:
+                    # the verifier's statement spells an offset of one as a constant term of its own, after / before the constant that satisfies
+                    # the prover's statement: a flattening that keeps only the first / the last constant term of a constraint cannot tell
+                    v = side(); target(v)[i].update(delta=1, split="first"); devs.append(("%s-constant-after-%d" % (where, i), v, "reject"))
+                    v = side(); target(v)[i].update(delta=1, split="last"); devs.append(("%s-constant-before-%d" % (where, i), v, "reject"))
     commits = [i for i, o in enumerate(p["ops"]) if o["op"] == "commit"]
     v = side(); v["ops"].append({"op": "commit", "v": 3, "vb": 3}); devs.append(("commit-extra", v, "reject"))
     v = side(); del v["ops"][commits[-1]]; devs.append(("commit-missing-last", v, "reject"))      # the last commitment is unreferenced
@@ -149,7 +159,7 @@ def run(chk):
     for p in progs:
         chk.count_case(["toy31723", p["id"]])
     chk.finish(
-        rule="six base statements (one- and two-phase, zero to five gates, committed-only and constant-only constraints, application data before and "
+        rule="seven base statements (one- and two-phase, zero to five gates, committed-only and constant-only constraints, application data before and "
              "during construction in both phases) x every single verifier-side deviation - transcript label; application data added, missing, changed, "
              "relabelled (before construction, in phase 1, inside a callback); each commitment's value or blinding changed; extra, missing, reordered "
              "commitment; each coefficient over a committed value and each constant changed; blinding base; value base - replayed on secq256k1, zorro, "
